@@ -68,6 +68,20 @@ CHECKS = {
         note=TB + "; roles of private fields are derived from scope()'s public parameter order, not from names.",
         technique="static analysis: write-freedom (effect) analysis on the chop entry->exhausted return, dataflow of scope parameters",
     ),
+    "C05": dict(
+        cat="other",
+        text="Layout agreement and expansion tables, decided for the whole notation rather than 14 sample strings: for each of "
+             "the 10 token shapes the regex's fixed prefix has exactly the rank / suit / kind characters of the char tables "
+             "at the positions standard notation prescribes, every field is parsed from the prescribed byte, the required byte "
+             "equalities and the suited/offsuit selector are present, and the weight is read from where the shape ends; "
+             "expansion walks RankRange::inclusive with the prescribed endpoints and builds the prescribed rank pair per step "
+             "with the token's weight; the 6/4/12 combo tables are complete and duplicate-free; the range parser strips spaces, "
+             "splits on ',', inserts in token order into the returned map and cannot fail. The end-to-end relation over all "
+             "token lists is NOT decided.",
+        ref="DESIGN.md §4 C05",
+        note=TB + "; the table of expected positions (rules/c05.py SPEC) is the checker's statement of standard notation.",
+        technique="static analysis: regex-language layout vs slice-offset provenance, argument provenance of the expansion incl. closure captures, table extraction",
+    ),
     "C07": dict(
         cat="proof",
         text="Complete for the stated mechanism: the interval partition of hand_type() is extracted from MIR and "
@@ -77,6 +91,54 @@ CHECKS = {
         ref="DESIGN.md §4 C07",
         note=TB + "; assumes C01 (power index is the standard class 1..=7462).",
         technique="static analysis: MIR decision-tree extraction (interval partition) vs independent class oracle, exhaustive over 7462 indexes",
+    ),
+    "C09": dict(
+        cat="other",
+        text="Panic-freedom argument over every body reachable from the six FromStr impls, token expansion, range "
+             "formatting and decomposition: all 50 str slicing sites are discharged by ASCII+length guards on the same string "
+             "(dominance, start-anchored ASCII regex prefixes, is_ascii, len tests, starts_with), span-shaped tokens are only "
+             "built under the rank-order comparison that keeps RANKS[start..=end] and next().unwrap() in bounds (and the "
+             "expansion is checked to use exactly those arguments), every RankRange/SuitRange construction has ordered bounds, "
+             "regex literals are inside the analysed subset, checked gets; the remaining sites carry audited invariants. "
+             "Thorough tier repeats the audit with overflow checks off.",
+        ref="DESIGN.md §4 C09, §3.4",
+        note=TB + "; panics inside regex/std other than the documented ones and allocation failure are assumed away; audited allowances carry stated invariants.",
+        technique="static analysis: potential-panic site enumeration over the reachable call graph with dominance-based discharge rules (string guards, order guards) and an audited allowance table",
+    ),
+    "C10": dict(
+        cat="other",
+        text="Decides both halves for every input string: the ':weight' tail of each of the 7 token regexes is analysed as a regular "
+             "language (plain decimal numerals; integer part 0, or 1 with absent/all-zero fraction) so every stored weight is in "
+             "[0,1] (f32 parsing is monotone), the offsets tie the weight parser's input to that tail and its default is in "
+             "[0,1]; SingleCardPair is only built under pair[0] != pair[1] and Suited(a,b) only under a test implying a != b "
+             "(with the combo tables this excludes a combo of one card twice). Showdown-level consequences follow from "
+             "C02/C03.",
+        ref="DESIGN.md §4 C10",
+        note=TB + "; f32::from_str correctly rounded; regex crate implements the literal's language.",
+        technique="static analysis: regular-language bound of the weight grammar, dominance of distinctness guards over token constructions",
+    ),
+    "C11": dict(
+        cat="other",
+        text="Mechanisms only: a use-site audit of every Suit-typed value in the bodies reachable from MadeHand::from, "
+             "Showdown::new and winner_len shows evaluation depends on suits only through equality with non-constant suits "
+             "and through an injective code used solely to index a local counter array (no suit constant, match, ordering or "
+             "arithmetic on the code) — hence invariance under any permutation of the four suits; the seat index only enters "
+             "the winner set; winner flags/count discipline (C03's rules re-evaluated). The metamorphic relation over whole "
+             "enumerations (two runs of the pipeline) is NOT decided.",
+        ref="DESIGN.md §4 C11",
+        note=TB + "; deck/odometer order affecting only the order of deals is assumed (C02 decides necessary conditions only).",
+        technique="static analysis: typed use-site (taint) audit of Suit values and of the player position over the reachable call graph",
+    ),
+    "C12": dict(
+        cat="other",
+        text="Data clauses: the 6/4/12 combo tables are complete and duplicate-free (so all() over them is a complete test); "
+             "each probe combo of rank_pairs() is a member of the table of the rank pair it probes, the all() runs over that "
+             "same rank pair and compares each combo's weight with the probe's weight (closure captures resolved), the "
+             "probe's weight is what is reported; the loops cover all 13+78+78 rank pairs; orphan_card_pairs removes from a "
+             "clone exactly the combos of the reported pairs. The weight logic over partial patterns is NOT decided.",
+        ref="DESIGN.md §4 C12",
+        note=TB + ".",
+        technique="static analysis: table extraction, membership of probe combos, provenance through closure captures, loop-domain constants",
     ),
     "C13": dict(
         cat="proof",
@@ -113,6 +175,17 @@ CHECKS = {
         ref="DESIGN.md §4 C15",
         note=TB + "; std/regex/fxhash assumed data-race-free behind safe APIs.",
         technique="static analysis: effect/ownership audit over the reachable call graph (statics, TLS, unsafe), type-structure audit (Freeze/Send/Sync via trait selection), compile-time witnesses",
+    ),
+    "C17": dict(
+        cat="other",
+        text="One clause, decided for every construction history: in all bodies reachable from the range/token Display impls, "
+             "iteration over a hash-ordered iterator (detected through the resolved Iterator::next type and crate-local "
+             "functions returning hash iterators) only feeds order-insensitive sinks and only exits on exhaustion, iterator "
+             "chains over hash iterators are only consumed by order-free consumers, and every token is pushed inside loops over "
+             "the fixed rank/suit tables; so the text is a function of the contents. Maximal run merging is NOT decided.",
+        ref="DESIGN.md §4 C17",
+        note=TB + "; Vec / RankRange / SuitRange iterate in fixed order.",
+        technique="static analysis: effect audit of hash-ordered loops and iterator chains over the reachable call graph",
     ),
 }
 
